@@ -86,7 +86,11 @@ var verifEpoch = time.Unix(1700000000, 0)
 
 type verifAPI struct {
 	pools map[string]*v3.IPPool
-	rv    int
+	// failStatus: pools whose next status writes are rejected with a conflict (fault injection chosen by the
+	// behaviour); failed records the ones that were actually hit
+	failStatus map[string]bool
+	failed     map[string]bool
+	rv         int
 	clock int // seconds after the epoch of the most recent creation
 }
 
@@ -178,6 +182,10 @@ func (a *verifAPI) react(action k8stesting.Action) (bool, runtime.Object, error)
 		sub := action.GetSubresource()
 		if sub != "" && sub != "status" {
 			return true, nil, fmt.Errorf("verif: unexpected subresource %q", sub)
+		}
+		if sub == "status" && a.failStatus[obj.Name] {
+			a.failed[obj.Name] = true
+			return true, nil, apierrors.NewConflict(verifGR, obj.Name, fmt.Errorf("verif: injected status write failure"))
 		}
 		out, err := a.update(obj, sub == "status")
 		if err != nil {
@@ -444,7 +452,18 @@ func (d *verifDrv) step(op map[string]any) {
 	case "reconcile":
 		d.syncInformers()
 		d.ipam.released = nil
+		d.api.failStatus, d.api.failed = map[string]bool{}, map[string]bool{}
+		if fl, ok := op["fail"].([]any); ok {
+			for _, f := range fl {
+				d.api.failStatus[f.(string)] = true
+			}
+		}
 		err := d.ctrl.reconcile()
+		d.api.failStatus = map[string]bool{}
+		failed := []any{}
+		for _, n := range sortedKeys(d.api.failed) {
+			failed = append(failed, n)
+		}
 		es := ""
 		if err != nil {
 			es = err.Error()
@@ -453,7 +472,7 @@ func (d *verifDrv) step(op map[string]any) {
 		for _, r := range d.ipam.released {
 			rel = append(rel, cidrJSON(r))
 		}
-		d.emit("reconcile", map[string]any{"err": es, "released": rel})
+		d.emit("reconcile", map[string]any{"err": es, "released": rel, "failed": failed})
 	case "end":
 	default:
 		panic("unknown op " + fmt.Sprint(op["op"]))
@@ -494,15 +513,38 @@ func (d *verifDrv) random(t int, rnd *rand.Rand) {
 			d.step(map[string]any{"op": "set_disabled", "n": n, "v": rnd.Intn(2) == 0})
 		case c < 10:
 			d.step(map[string]any{"op": "delete", "n": n})
+			if rnd.Intn(3) == 0 {
+				// the first pass after the deletion, with the terminating pool's own status write rejected
+				d.step(map[string]any{"op": "reconcile", "fail": []any{n}})
+			}
 		case c < 12:
 			d.step(map[string]any{"op": "block_add", "cidr": jsonRoundTrip(cidrJSON(verifBlockCIDRs[rnd.Intn(len(verifBlockCIDRs))]))})
 		case c < 14:
 			d.step(map[string]any{"op": "block_del", "cidr": jsonRoundTrip(cidrJSON(verifBlockCIDRs[rnd.Intn(len(verifBlockCIDRs))]))})
+		case c < 16:
+			// a pass in which the status writes of one or two pools are rejected, usually followed by the retry
+			fl := []any{names[rnd.Intn(nn)]}
+			if rnd.Intn(3) == 0 {
+				fl = append(fl, names[rnd.Intn(nn)])
+			}
+			d.step(map[string]any{"op": "reconcile", "fail": fl})
+			if rnd.Intn(4) > 0 {
+				d.step(map[string]any{"op": "reconcile"})
+			}
 		default:
 			d.step(map[string]any{"op": "reconcile"})
 		}
 	}
 	d.step(map[string]any{"op": "reconcile"})
+}
+
+func sortedKeys(m map[string]bool) []string {
+	ks := make([]string, 0, len(m))
+	for k := range m {
+		ks = append(ks, k)
+	}
+	sort.Strings(ks)
+	return ks
 }
 
 func jsonRoundTrip(v any) any {
